@@ -57,6 +57,7 @@ type solveOut struct {
 	solver string
 	out    string
 	secs   float64
+	query  string // the query without the trailing get-value (kept for sat answers)
 }
 
 func runSolver(sp solverSpec, query string, timeout float64) solveOut {
@@ -86,7 +87,7 @@ func runSolver(sp solverSpec, query string, timeout float64) solveOut {
 	if st == "unknown" && strings.Contains(s, "error") && !strings.Contains(s, "timeout") && len(s) < 2000 && first != "unknown" && first != "timeout" {
 		st = "error"
 	}
-	return solveOut{st, sp.name, s, secs}
+	return solveOut{status: st, solver: sp.name, out: s, secs: secs}
 }
 
 // solve runs the portfolio: z3 5.1 first, then cvc5 and z3 4.8 in parallel.
@@ -186,6 +187,9 @@ func (p *solverPool) submitFunc(c *FnCtx, fr *FuncResult) {
 					res.Output = r.Output
 					res.FailCase = r.FailCase
 					res.Solver = r.Solver
+					res.Elems = r.Elems
+					res.ReplaySrc = r.ReplaySrc
+					res.NoReplay = r.NoReplay
 				}
 			}()
 		}
@@ -207,8 +211,12 @@ func (p *solverPool) solveObl(c *FnCtx, parsed []logLine, o *Obl) OblResult {
 		splits = c.contract.Splits
 	}
 	try := func(extra []string, timeout float64, full bool) solveOut {
-		q := c.buildQuery(parsed, o, extra, full) + getvals
+		qb := c.buildQuery(parsed, o, extra, full)
+		q := qb + getvals
 		r := p.solveP(q, timeout, len(splits) == 0)
+		if r.status == "sat" {
+			r.query = qb
+		}
 		res.TimeS += r.secs
 		res.Queries++
 		if p.dumpDir != "" && r.status != "unsat" && !o.Smoke {
@@ -243,6 +251,12 @@ func (p *solverPool) solveObl(c *FnCtx, parsed []logLine, o *Obl) OblResult {
 				res.Model[m[1]] = m[2]
 			}
 			res.Output = truncate(r.out, 4000)
+			if r.query != "" {
+				model, elems := p.refineModel(c, r.query, res.Model)
+				res.Model = model
+				res.Elems = elems
+				res.ReplaySrc, res.NoReplay = c.replaySource(model, elems)
+			}
 		default:
 			res.Status = "unknown"
 			res.Output = truncate(r.out, 2000)
@@ -307,13 +321,21 @@ func (p *solverPool) solveObl(c *FnCtx, parsed []logLine, o *Obl) OblResult {
 				}
 				extra = []string{or(app(lt, v.T, bvInt(int64(sp.Lo), v.S.W)), app(lt, bvInt(int64(sp.Hi), v.S.W), v.T))}
 			}
-			q := c.buildQuery(parsed, o, extra, false) + getvals
+			qb := c.buildQuery(parsed, o, extra, false)
+			q := qb + getvals
 			rk := p.solve(q, p.timeout)
+			if rk.status == "sat" {
+				rk.query = qb
+			}
 			nq := 1
 			secs := rk.secs
 			if (rk.status == "sat" && !o.Smoke) || (rk.status != "unsat" && rk.status != "sat") {
-				q2 := c.buildQuery(parsed, o, extra, true) + getvals
+				qb2 := c.buildQuery(parsed, o, extra, true)
+				q2 := qb2 + getvals
 				rk2 := p.solve(q2, p.timeout)
+				if rk2.status == "sat" {
+					rk2.query = qb2
+				}
 				nq++
 				secs += rk2.secs
 				if rk2.status == "unsat" || rk2.status == "sat" {
@@ -407,4 +429,58 @@ func (c *FnCtx) getValueCmd() string {
 		return ""
 	}
 	return "(get-value (" + strings.Join(names, " ") + "))\n"
+}
+
+// refineModel looks for a small model (few slice elements) and reads the elements of the input slices.
+func (p *solverPool) refineModel(c *FnCtx, qbase string, model map[string]string) (map[string]string, map[string]string) {
+	strip := func(q string) string { return strings.TrimSuffix(strings.TrimSpace(q), "(check-sat)") }
+	base := strip(qbase)
+	getvals := c.getValueCmd()
+	sp := solvers(5)[0]
+	for _, limit := range []int{2, 4, 8} {
+		var b strings.Builder
+		b.WriteString(base)
+		for _, a := range c.smallLenConstraints(limit) {
+			b.WriteString("(assert " + a + ")\n")
+		}
+		r := p.run(sp, b.String()+"(check-sat)\n"+getvals, 5)
+		p.account(r)
+		if r.status == "sat" {
+			model = map[string]string{}
+			for _, m := range reVal.FindAllStringSubmatch(r.out, -1) {
+				model[m[1]] = m[2]
+			}
+			base = b.String()
+			break
+		}
+	}
+	// second round: pin the scalars and lengths, ask for the elements
+	terms := c.elementTerms(model)
+	elems := map[string]string{}
+	if len(terms) == 0 {
+		return model, elems
+	}
+	var b strings.Builder
+	b.WriteString(base)
+	for k, v := range model {
+		if strings.HasPrefix(v, "#") || v == "true" || v == "false" {
+			b.WriteString(fmt.Sprintf("(assert (= %s %s))\n", k, v))
+		}
+	}
+	b.WriteString("(check-sat)\n(get-value (")
+	for _, t := range terms {
+		b.WriteString(t.term + " ")
+	}
+	b.WriteString("))\n")
+	r := p.run(sp, b.String(), 5)
+	p.account(r)
+	if r.status == "sat" {
+		vals := parseGetValue(r.out)
+		if len(vals) == len(terms) {
+			for i, t := range terms {
+				elems[t.path] = vals[i]
+			}
+		}
+	}
+	return model, elems
 }
